@@ -14,7 +14,7 @@ import re
 from ..core import LEAN
 from ..modules import MOV, FORMSMETA, REGS
 
-GO_FILES = ["c06.go", "c06_optab_ast.go", "c06_ctors_ast.go", "gen_forms.go", "zz_c06_wrappers.go",
+GO_FILES = ["c06.go", "c06_optab_ast.go", "c06_ctors_ast.go", "c05derive.go", "gen_forms.go", "zz_c06_wrappers.go",
             "gen_mov.go", "c08.go", "c08cpu.go"]
 PROPS = ["AvoVerif.Props.C08", "AvoVerif.Props.C08Regs"]
 FINDINGS = [("F7", "AvoVerif.Props.C08Finding", "C08Finding"), ("F18", "AvoVerif.Props.C08FindingF18", "C08FindingF18")]
